@@ -37,7 +37,16 @@ impl DiagnosticAction {
     }
 
     pub fn is_match(&self, is_disable: bool, range: &TextRange, code: &DiagnosticCode) -> bool {
-        if self.range.intersect(*range).is_none() {
+        // Ranges that merely touch do not overlap: a diagnostic starting exactly where this
+        // action's range ends (e.g. at column 0 of the line after a `disable-next-line` scope)
+        // is outside of it. A zero-width diagnostic is affected when it lies inside the range.
+        let in_scope = match self.range.intersect(*range) {
+            Some(overlap) => {
+                !overlap.is_empty() || (range.is_empty() && self.range.contains(range.start()))
+            }
+            None => false,
+        };
+        if !in_scope {
             return false;
         }
 
